@@ -20,7 +20,7 @@ def strategy(optimizer, tier):
         optimizer,
         task=strategies.task_spec(classes=CLASSES),
         config=strategies.config_spec(optimizer, max_cycles=(1, 6 if tier == "quick" else 20)),
-        modes=("serial",) * 10 + ("thread", "process"))
+        modes=("serial",) * 10 + ("thread", "process"), warmup=0.15)
 
 
 def judge(spec, obs):
